@@ -191,3 +191,15 @@ Theorem C05_filefields_roundtrip : forall (orc : oracle) (F : fsys) (U : uparse)
   exists b p : pyval, ff_to_basic f v = Ok b /\ ff_to_python f b = Ok p /\ ff_validate orc F U f p = Ok v.
 Proof. exact ff_roundtrip. Qed.
 Print Assumptions C05_filefields_roundtrip.
+
+(* idempotence of both classes outside the two open findings: known_F56 f = a (non-empty) start directory together with an
+   inherited string option (C05_file_validate_idem_refuted is its witness), ff_F13 f = the F13 region of the string options *)
+Theorem C05_filefields_idem_partial : forall (orc : oracle) (F : fsys) (U : uparse) (f : ffield) (x v : pyval),
+  known_F56 f = false -> ff_F13 f = false -> abspath_absolute F -> fs_isabs F nil = Some false ->
+  ff_validate orc F U f x = Ok v -> ff_validate orc F U f v = Ok v.
+Proof. exact ff_validate_idem_partial. Qed.
+Print Assumptions C05_filefields_idem_partial.
+
+Theorem C05_known_F56_witness : known_F56 refute_field = true.
+Proof. reflexivity. Qed.
+Print Assumptions C05_known_F56_witness.
